@@ -25,6 +25,9 @@ from sa.exprs import HS
 M = "textx/model.py"
 class TermS(HS):
     def __str__(s): return str(s.get(".value"))
+class RuleS(HS):
+    """a match expression: prints as its text (arpeggio's Match.__str__)"""
+    def __str__(s): return str(s.get(".to_match"))
 def r_processnode(root):
     out = []; inst = 0
     t = load(root, M)
@@ -40,7 +43,7 @@ def r_processnode(root):
     MANY, ONE, OPT = consts.get("MULT_ONEORMORE"), consts.get("MULT_ONE"), consts.get("MULT_OPTIONAL")
     TERM = HS({".kind": "cls", ".__name__": "Terminal"})
     REM = HS({".kind": "cls", ".__name__": "RegExMatch"})
-    def build(tools=False, double=False, regexp_group=False, falsy_part=False, plain_many_ref=False):
+    def build(tools=False, double=False, regexp_group=False, falsy_part=False, plain_many_ref=False, ignore_case=False):
         prov = HS({".kind": "callable", ".tag": "rrel provider of the attribute"})
         def attr(name, cls, mult=ONE, cont=True, ref=False, boolasg=False, provider=None, mrule=None):
             return HS({".kind": "metaattr", ".name": name, ".cls": cls, ".mult": mult, ".cont": cont, ".ref": ref, ".bool_assignment": boolasg, ".scope_provider": provider, ".match_rule_name": mrule})
@@ -53,7 +56,7 @@ def r_processnode(root):
         cB.own["_tx_attrs"] = {"name": attr("name", cID)}; cBox.own["_tx_attrs"] = {"inner": attr("inner", cInner)}
         cModel.own["_tx_attrs"] = {"name": attr("name", cID), "items": attr("items", cItem, MANY), "first": attr("first", cItem, ONE, cont=False, ref=True, provider=prov, mrule="ID"),
                                    "refs": attr("refs", cItem, MANY, cont=False, ref=True, provider=None, mrule="FQN"), "kind": attr("kind", cKind), "val": attr("val", cVal), "box": attr("box", cBox),
-                                   "val2": attr("val2", cKindM), "val3": attr("val3", cKindT), "thing": attr("thing", cUser), "code": attr("code", cID), "code2": attr("code2", cID), "code0": attr("code0", cID), "kind2": attr("kind2", cKindM), "num": attr("num", cVal), "zval": attr("zval", cVal)}
+                                   "val2": attr("val2", cKindM), "val3": attr("val3", cKindT), "thing": attr("thing", cUser), "code": attr("code", cID), "code2": attr("code2", cID), "code0": attr("code0", cID), "kind2": attr("kind2", cKindM), "num": attr("num", cVal), "zval": attr("zval", cVal), "word": attr("word", cID)}
         def rule(name, cls=None, attr_name=None, root=True, sep=None): return HS({".kind": "rule", ".rule_name": name, ".root": root, "._tx_class": cls, "._attr_name": attr_name, ".sep": sep, ".suppress": False})
         def T(rule_name, value, pos): return TermS({".__class__": TERM, ".kind": "terminal", ".value": value, ".rule_name": rule_name, ".position": pos, ".position_end": pos + len(value), ".rule": rule(rule_name, {"ID": cID}.get(rule_name), root=False), ".suppress": False, ".flat_str": pyeval.PyFn(lambda: value)})
         def N(rule_name, pos, end, kids, cls=None, attr_name=None, sep=None): return pyeval.SList(kids, rule_name=rule_name, rule=rule(rule_name, cls, attr_name, sep=sep), position=pos, position_end=end, value="|".join(str(k) for k in kids), suppress=False, flat_str=pyeval.PyFn(lambda: "".join(str(k) if isinstance(k, TermS) else k.sample_attrs["flat_str"]() for k in kids)))
@@ -85,13 +88,19 @@ def r_processnode(root):
                                                                     N("Item", 129, 129, [A("plain", "name", 129, 129, [T("ID", "i9", 129)])], cItem)], cKindM)])]
         kids.append(A("plain", "num", 131, 135, [N("Val", 131, 135, [RT("STRICTFLOAT", "-1.5", 131, 3, "1.5", "([+-]?((\\d+\\.\\d*)|(\\.\\d+)))")], cVal)]))       # a match rule made of one regex token with several groups
         if falsy_part: kids.append(A("plain", "zval", 136, 139, [N("Val", 136, 139, [T("STRING", "x", 136), T("INT", "0", 137), T("STRING", "y", 138)], cVal)]))       # a match rule one of whose parts converts to a falsy value (0)
+        if ignore_case:
+            # a literal matched case-insensitively: the model holds the text as the user wrote it ('Begin'), not the grammar's spelling
+            t_ = T("ID", "Begin", 136); t_[".rule"] = RuleS({".kind": "rule", ".rule_name": "ID", ".root": False, "._tx_class": cID, ".to_match": "begin", ".ignore_case": True, ".suppress": False, ".sep": None})
+            kids.append(A("plain", "word", 136, 141, [t_]))
+            t2_ = T("KW", "END", 142); t2_[".rule"] = RuleS({".kind": "rule", ".rule_name": "KW", ".root": False, "._tx_class": cKW, ".to_match": "end", ".ignore_case": True, ".suppress": False, ".sep": None})
+            kids.append(A("plain", "zval", 142, 145, [N("Val", 142, 145, [t2_], cVal)]))            # the same inside a match rule
         if plain_many_ref: kids.append(A("plain", "refs", 136, 138, [T("FQN", "i2", 136)]))        # a reference assigned with '=' to a many-valued attribute:  ('uses' refs=[Item|FQN])*
         if double: kids.append(A("plain", "name", 136, 139, [T("ID", "again", 136)]))
         tree = N("Model", 0, 140, kids, cModel)
         processed = []
         def init_attrs(o):
             for a in o.cls.lookup("_tx_attrs")[1].values(): o.own[a[".name"]] = [] if a[".mult"] == MANY else (False if a[".bool_assignment"] else None)
-        mm = HS({".kind": "metamodel", ".user_classes": {"UserThing": user_class}, ".textx_tools_support": tools, ".use_regexp_group": regexp_group, ".debug": False, ".ignore_case": False, ".autokwd": False, ".skipws": True, ".ws": " ", ".auto_init_attributes": True, "._init_obj_attrs": pyeval.PyFn(init_attrs),
+        mm = HS({".kind": "metamodel", ".user_classes": {"UserThing": user_class}, ".textx_tools_support": tools, ".use_regexp_group": regexp_group, ".debug": False, ".ignore_case": ignore_case, ".autokwd": False, ".skipws": True, ".ws": " ", ".auto_init_attributes": True, "._init_obj_attrs": pyeval.PyFn(init_attrs),
                  ".process": pyeval.PyFn(lambda value, typ, filename=None, col=None, line=None, nchar=None, **k: (processed.append((value, typ, filename, line, col)), ("converted:" + value) if typ == "Val" else (int(value) if typ == "INT" else value))[1])})
         parser = HS({".kind": "parser", ".debug": False, ".metamodel": mm, ".file_name": "model.file", ".position": 143, ".input": "x" * 140 + "   ", "._inst_stack": [], "._crossrefs": [], "._instances": {}, "._user_obj_ids": [], "._user_class_inst": [],
                      ".pos_to_linecol": pyeval.PyFn(lambda pos: (("line", pos), ("col", pos))), ".dprint": pyeval.PyFn(lambda *a: None)})
@@ -156,6 +165,10 @@ def r_processnode(root):
     if len(xr) == 5 and all(isinstance(x[2], dict) for x in xr):
         rep("C32", "C32.f", "a queued reference carries the provider and match rule of its attribute", xr[0][2].get(".scope_provider") is prov and xr[0][2].get(".match_rule_name") == "ID" and xr[1][2].get(".scope_provider") is None and xr[1][2].get(".match_rule_name") == "FQN",
             "the reference of attribute first carries provider %s and match rule %r, the ones of refs %s / %r; documented: the grammar RREL provider and match rule ID of first, no provider and match rule FQN for refs" % ("of the attribute" if xr[0][2].get(".scope_provider") is prov else xr[0][2].get(".scope_provider"), xr[0][2].get(".match_rule_name"), xr[1][2].get(".scope_provider"), xr[1][2].get(".match_rule_name")))
+    envi, _pi, _mi, _Ci, _pri, _proci = build(ignore_case=True)
+    ki, mi = run(envi)
+    for prp in ("C20", "C02"):
+        rep(prp, "C20.f", "under ignore_case the model holds the text as written", ki == "ret" and g(mi, "word") == "Begin" and g(mi, "zval") == "converted:END", "with ignore_case on, the text 'Begin' matched by the literal 'begin' is stored as %s and the text 'END' matched by the literal 'end' inside the match rule Val as %s; documented: 'Begin' and the conversion of 'END' - case-insensitive matching never rewrites the matched text" % ((repr(g(mi, "word")), repr(g(mi, "zval"))) if ki == "ret" else "nothing: building raises %s" % mi.cls))
     envr, pr_, _mr, _Cr, _prr, _procr = build(plain_many_ref=True)
     kr, mr = run(envr)
     xrr = pr_["._crossrefs"]
